@@ -248,6 +248,26 @@ pub fn call_decoder<R: BufRead, W: Write>(
             EP_RAW_LZMA2 => {
                 use lzma_rs::decompress::raw::Lzma2Decoder;
                 let mut d = if raw.dict & 1 == 1 { Lzma2Decoder::default() } else { Lzma2Decoder::new() };
+                // `pre`: the decoder object has a history - an earlier decompress call on it
+                // failed half-way (bytes decoded since its last dictionary reset) and no
+                // reset() followed. A well-formed LZMA2 stream re-initialises everything
+                // it uses, so the decode that follows owes nothing to that history.
+                if let Some(h) = raw.pre {
+                    let prior: &[u8] = match h % 3 {
+                        0 => &[0x01, 0x00, 0x04, b'a', b'b', b'c', b'd', b'e', 0x02, 0x00, 0x09, b'x'],
+                        1 => &[0x01, 0x00, 0x02, b'a', b'b', b'c', 0x02, 0x00, 0x01, b'd', b'e', 0x7F],
+                        _ => &[0x01, 0x00, 0x03, b'a', b'b', b'c', b'd', 0x00],
+                    };
+                    let mut pr: &[u8] = prior;
+                    if h % 3 == 2 {
+                        // complete input, the sink fails (write when h & 4, else flush)
+                        let wf = if h & 4 != 0 { crate::env::Faults::one(1, crate::env::FK_OTHER) } else { crate::env::Faults::none() };
+                        let (mut bad, _h) = crate::env::SimSink::new(None, &[], wf, crate::env::Faults::one(1, crate::env::FK_OTHER));
+                        let _ = d.decompress(&mut pr, &mut bad);
+                    } else {
+                        let _ = d.decompress(&mut pr, &mut std::io::sink());
+                    }
+                }
                 let res = d.decompress(r, w).map_err(errstr);
                 // Debug output is exercised (must not panic) but not metered as decoding
                 // memory; only for small literal tables (it prints every probability)
